@@ -983,6 +983,10 @@ func (x *exec) step(op Op) {
 		x.eachCol(x.sel(op.I[0], sh.G))
 	case "find":
 		x.find(op.S[0], op.F == 1)
+	case "save":
+		x.desc = "Document.ToBytes()"
+		x.status = "ok"
+		x.checkSaved(fmt.Sprintf("op %d", x.i), x.opened || x.i%4 == 0)
 	default:
 		x.cellLevel(op)
 	}
@@ -1180,6 +1184,14 @@ func (x *exec) history(c Case) *kit.Result {
 			rect = "N"
 		}
 		x.shapeSig = append(x.shapeSig, op.K+":"+x.status+":"+rect)
+	}
+	if !x.stop {
+		x.i, x.desc, x.pre = len(c.Ops), "Document.ToBytes()", nil
+		// the whole package for every table read from a file and one in eight of the others, the element alone otherwise
+		x.checkSaved("the end of the history", x.opened || (len(c.Ops)+c.Rows+c.Cols)%8 == 0)
+	}
+	if c.Motif {
+		res.Label("history:seam-motif")
 	}
 	if x.everMerged {
 		res.Label("history:merged-state")
